@@ -216,11 +216,31 @@ func sigJudge(r *b1.Result) b1.Verdict {
 		gotRecv = &sigParam{r.Fn.Recv.Name, r.Fn.Recv.Type}
 	}
 	got := renderHeader(gotRecv, toSig(r.Fn.Params), toSig(r.Fn.Results))
-	if got == want {
-		v.OK = true
+	if got != want {
+		v.What = fmt.Sprintf("signature %s: generated `%s`, documented shape is `%s`", sigDescribe(s), got, want)
 		return v
 	}
-	v.What = fmt.Sprintf("signature %s: generated `%s`, documented shape is `%s`", sigDescribe(s), got, want)
+	// copy direction: into the destination operand, or - under :reverse - into the source operand
+	wantLHS, wantRHS := "DST.X", "SRC.X"
+	if s.Cfg.Reverse {
+		wantLHS, wantRHS = "SRC.X", "DST.X"
+	}
+	n := 0
+	for _, st := range r.Fn.Body {
+		if st.Kind != "assign" {
+			continue
+		}
+		n++
+		if st.LHS != wantLHS || st.Term != wantRHS {
+			v.What = fmt.Sprintf("signature %s: the body copies `%s = %s`, the direction must be `%s = %s`", sigDescribe(s), st.LHS, st.Term, wantLHS, wantRHS)
+			return v
+		}
+	}
+	if n != 1 {
+		v.What = fmt.Sprintf("signature %s: %d field assignments in the body, exactly one (X) expected", sigDescribe(s), n)
+		return v
+	}
+	v.OK = true
 	return v
 }
 
@@ -237,6 +257,12 @@ func sigCases(c *core.Ctx) []*b1.Case {
 
 // C08 is exhaustive in both tiers (the space is small).
 func C08(c *core.Ctx) {
+	if c.Replay != "" {
+		if !replayB1(c, nil, sigJudge, nil, nil, false) {
+			replayUnsupported(c)
+		}
+		return
+	}
 	cases := sigCases(c)
 	st := b1.Run(c, b1.Options{Name: "sig", PerFile: 40, Family: "signature"}, cases, sigJudge)
 	c.Set("signature_cases", st.Cases)
@@ -483,6 +509,12 @@ func hookCases(c *core.Ctx) []*b1.Case {
 
 // C10: static side (fit / reject / call shape) and run-time side (trace validation).
 func C10(c *core.Ctx) {
+	if c.Replay != "" {
+		if !replayB1(c, nil, nil, hookJudge, nil, false) {
+			replayUnsupported(c)
+		}
+		return
+	}
 	cases := hookCases(c)
 	st := b1.Run(c, b1.Options{Name: "hooks", PerFile: 40, Family: "hooks"}, cases, hookJudge)
 	// run-time side: executed generated functions, conjunct "hooks" of GenExecTrace
